@@ -276,6 +276,18 @@ def fe_hook_full(fn, args, kwargs):
             if value.ndim >= 2 and value.shape[:2] == (1, 1):
                 return XFe.of(value)
             ne, npg = (int(args[1]), int(args[2])) if len(args) > 2 else (None, None)
+            if ne is not None and tn and value.ndim == tn + 2 and value.shape[:2] == (ne, npg):
+                return XFe.of(value)
+            if ne is not None and tn and value.ndim == tn + 1 and value.shape[0] == ne:
+                # one tensor per element, held at every integration point of the element
+                step = 1
+                for s_ in value.shape[1:]:
+                    step *= s_
+                data = []
+                for e in range(ne):
+                    for _p in range(npg):
+                        data.extend(value.data[e * step:(e + 1) * step])
+                return XFe((ne, npg) + value.shape[1:], data)
             if ne is not None and value.ndim >= 2 and value.shape[:2] == (ne, npg):
                 return XFe.of(value)  # a full (Ne, nPg, ...) field
             raise AnalysisError("FeArray.broadcast of this shape is not modelled")
